@@ -7,12 +7,12 @@ Overview
   sorter        sort_terminates, sort_mem, sort_perm, sort_perm_no_declarations,
                 sort_nodup_refuted (duplicates with declarations), sort_topological
   load steps    steps_cover, steps_ordered, steps_never_fail
-  one mapping   fields_lookups_partition (+ _refuted: record-type column holding references),
+  one mapping   fields_lookups_partition (full strength), fields_listed_once,
                 step_names_injective_refuted
   whole file    mapping_entries, after_sound, after_sound_single
   totality      premapping_total, mapping_total_refuted (D14), mapping_errors, mapping_total_partial
-  continuation  continuation_drops_saved (D05), mapping_continuation_invariant_refuted,
-                mapping_continuation_invariant_partial
+  continuation  mapping_continuation_invariant (repaired access kind), mapping_continuation_invariant_partial,
+                old behaviour: continuation_drops_saved, mapping_continuation_invariant_refuted_for_getattr
 -/
 import SnowModel.Core.Mapping
 import SnowModel.Proofs.C16
@@ -156,27 +156,23 @@ example : loadSteps [⟨"A", ["x"], [none, some "k", none]⟩, ⟨"B", [], [none
 
 /-! ### one mapping: fields and lookups -/
 
-/-- **Fields / lookups partition.** For the mapping generated for a load step whose record-type
-    column (if any) holds no reference: the listed columns (plain fields and lookups together) are
-    exactly the step's fields, each as often as it occurs there; a field is a lookup iff a reference
-    was recorded for it, and then to the recorded target; plain fields are keyed by their own name,
-    except the record-type column which is keyed `RecordTypeId`. -/
+/-- **Fields / lookups partition** (full strength; before fix 8e9f95d this needed the hypothesis
+    that the record-type column holds no reference — such a column was listed twice). For the mapping
+    generated for any load step: the listed columns (plain fields and lookups together) are exactly the
+    step's fields, each as often as it occurs there; a field is a lookup iff a reference was recorded
+    for it, and then to the recorded target; plain fields hold no reference and are keyed by their own
+    name, except the record-type column which is keyed `RecordTypeId`. -/
 theorem fields_lookups_partition (deps : List Dep) (all : List LoadStep) (s : LoadStep)
-    (p : String × Mapping) (h : mappingOfStep deps all s = .ok p)
-    (hrt : ∀ c, findRecordTypeColumn s.table s.fields = .ok (some c) → isRef deps s.table c = false) :
+    (p : String × Mapping) (h : mappingOfStep deps all s = .ok p) :
     (p.2.fields.map Prod.snd ++ p.2.lookups.map Lookup.field).Perm s.fields ∧
       (∀ l ∈ p.2.lookups, refTarget deps s.table l.field = some l.table) ∧
       (∀ f ∈ s.fields, f ∈ p.2.lookups.map Lookup.field ↔ isRef deps s.table f = true) ∧
-      (∀ kv ∈ p.2.fields,
-        (kv.1 = kv.2 ∧ isRef deps s.table kv.2 = false) ∨
-          (kv.1 = "RecordTypeId" ∧ findRecordTypeColumn s.table s.fields = .ok (some kv.2))) := by
+      (∀ kv ∈ p.2.fields, isRef deps s.table kv.2 = false ∧
+        (kv.1 = kv.2 ∨
+          (kv.1 = "RecordTypeId" ∧ findRecordTypeColumn s.table s.fields = .ok (some kv.2)))) := by
   obtain ⟨rt, hrt', _, _, _, hf, hl⟩ := mappingOfStep_ok deps all s p h
   rw [hf, hl]
-  refine ⟨?_, ?_, ?_, ?_⟩
-  · apply partition_perm deps s.table s.fields rt hrt'
-    intro c e
-    subst e
-    exact hrt c hrt'
+  refine ⟨partition_perm deps s.table s.fields rt hrt', ?_, ?_, ?_⟩
   · intro l hlk
     exact (lookupsOf_mem deps s.table s.fields l hlk).2.1
   · intro f hfm
@@ -184,22 +180,24 @@ theorem fields_lookups_partition (deps : List Dep) (all : List LoadStep) (s : Lo
     exact ⟨fun h => h.2, fun h => ⟨hfm, h⟩⟩
   · intro kv hkv
     rcases plainFields_mem deps s.table s.fields rt hrt' kv hkv with h1 | h1
-    · exact Or.inl ⟨h1.1, h1.2.2⟩
-    · exact Or.inr ⟨h1.1, by rw [← h1.2]; exact hrt'⟩
+    · exact ⟨h1.2.2, Or.inl h1.1⟩
+    · exact ⟨h1.2.2, Or.inr ⟨h1.1, by rw [← h1.2.1]; exact hrt'⟩⟩
+
+/-- Each visible field is listed exactly once: corollary of the permutation for steps whose fields
+    are distinct (they are dict keys). -/
+theorem fields_listed_once (deps : List Dep) (all : List LoadStep) (s : LoadStep)
+    (p : String × Mapping) (h : mappingOfStep deps all s = .ok p) (hnd : s.fields.Nodup) :
+    (p.2.fields.map Prod.snd ++ p.2.lookups.map Lookup.field).Nodup :=
+  (fields_lookups_partition deps all s p h).1.nodup_iff.mpr hnd
 
 example : mappingOfStep [⟨"A", "B", "r"⟩] [] ⟨"A", none, ["x", "r", "RecordType"]⟩ =
     .ok ("Insert A", ⟨"A", "A", [("x", "x"), ("RecordTypeId", "RecordType")], [⟨"r", "B", none⟩], none, []⟩) := by
   decide
 
-/-
-Without the hypothesis on the record-type column the partition is FALSE of the code: a record-type
-column that holds references is listed as a lookup *and* under `RecordTypeId`.
--/
-theorem fields_lookups_partition_refuted :
-    ∃ p, mappingOfStep [⟨"A", "B", "RecordType"⟩] [] ⟨"A", none, ["RecordType"]⟩ = .ok p ∧
-      p.2.fields.map Prod.snd ++ p.2.lookups.map Lookup.field = ["RecordType", "RecordType"] :=
-  ⟨("Insert A", ⟨"A", "A", [("RecordTypeId", "RecordType")], [⟨"RecordType", "B", none⟩], none, []⟩),
-    by decide, by decide⟩
+-- the formerly refuting input (a record-type column holding references): now a lookup only
+example : mappingOfStep [⟨"A", "B", "RecordType"⟩] [] ⟨"A", none, ["RecordType"]⟩ =
+    .ok ("Insert A", ⟨"A", "A", [], [⟨"RecordType", "B", none⟩], none, []⟩) := by
+  decide
 
 /-
 Step names are the keys of the mapping dict. `stepName` is not injective on (table, update key):
@@ -397,18 +395,20 @@ theorem mapping_total_partial (tables : List TableInfo) (deps : List Dep) (decls
 
 /-! ### continuation -/
 
-/-- **D05 in the model.** Read with `getattr(state, …, [])`, the saved dependencies are dropped: the
-    continued run knows only what it observes itself. -/
+/-- **The old behaviour (D05, repaired by fix d660dab), kept as an explicitly parameterised fact.**
+    Read with `getattr(state, …, [])`, the saved dependencies are dropped: the continued run knows
+    only what it observes itself. The source now reads by key (`Access.get`, pinned in
+    `C16Bridge.deps_load_access_is_get`). -/
 theorem continuation_drops_saved (saved observed : List Dep) :
     continuedDeps .getattr saved observed = dedupFirst observed := by
   simp [continuedDeps, loadDeps]
 
 /-
-The full statement `mapping_continuation_invariant` — the continued run (which re-observes a subset of
-the saved dependencies) yields the mapping of the first run — is FALSE of the code through D05:
-`Q.p` (a just_once row, not emitted again) is a lookup in the first run and a plain field afterwards.
+What the old access kind did to the property (statement about `Access.getattr` only — no longer
+about the code): `Q.p` (a just_once row, not emitted again) was a lookup in the first run and a plain
+field afterwards.
 -/
-theorem mapping_continuation_invariant_refuted :
+theorem mapping_continuation_invariant_refuted_for_getattr :
     let tables : List TableInfo := [⟨"P", [], [none]⟩, ⟨"Q", ["p"], [none]⟩, ⟨"C", ["q"], [none]⟩]
     let saved : List Dep := [⟨"Q", "P", "p"⟩, ⟨"C", "Q", "q"⟩]
     let observed : List Dep := [⟨"C", "Q", "q"⟩]
@@ -419,7 +419,7 @@ theorem mapping_continuation_invariant_refuted :
           (fun ms => ms.map (fun p => (p.1, p.2.fields, p.2.lookups.map Lookup.field)))) := by
   decide
 
-/-- **Continuation invariance, relative to D05.** If `__setstate__` reads the saved list with
+/-- **Continuation invariance, for either by-key access kind.** If `__setstate__` reads the saved list with
     `state[...]` or `state.get(...)`, and the continued run observes only dependencies that were
     already saved, the dependency list — hence the mapping, for every table list and declaration
     list — is unchanged. -/
@@ -444,6 +444,24 @@ theorem mapping_continuation_invariant_partial (a : Access) (ha : a ≠ .getattr
       simpa using this
     rw [this, List.append_nil]
   exact ⟨hc, by rw [hc]⟩
+
+/-- **Continuation invariance (full statement, for the repaired code: access by key).** The saved
+    dependency list is an ordered set (`hnd`); a continued run of the same recipe that observes only
+    dependencies already recorded (`hsub`) has the same dependency list and therefore the same mapping,
+    for every table list and every declaration list. `C16Bridge.mapping_continuation_invariant_pinned`
+    instantiates it with the access kind extracted from the source. -/
+theorem mapping_continuation_invariant (saved observed : List Dep) (hnd : saved.Nodup)
+    (hsub : ∀ d ∈ observed, d ∈ saved) (tables : List TableInfo) (decls : List Decl) :
+    mappingFromRecipe tables (continuedDeps .get saved observed) decls =
+      mappingFromRecipe tables saved decls :=
+  (mapping_continuation_invariant_partial .get (by decide) saved observed hnd hsub tables decls).2
+
+-- the formerly refuting history, with the repaired access kind
+example :
+    mappingFromRecipe [⟨"P", [], [none]⟩, ⟨"Q", ["p"], [none]⟩, ⟨"C", ["q"], [none]⟩]
+      (continuedDeps .get [⟨"Q", "P", "p"⟩, ⟨"C", "Q", "q"⟩] [⟨"C", "Q", "q"⟩]) [] =
+    mappingFromRecipe [⟨"P", [], [none]⟩, ⟨"Q", ["p"], [none]⟩, ⟨"C", ["q"], [none]⟩]
+      [⟨"Q", "P", "p"⟩, ⟨"C", "Q", "q"⟩] [] := by decide
 
 example : continuedDeps .get [⟨"Q", "P", "p"⟩, ⟨"C", "Q", "q"⟩] [⟨"C", "Q", "q"⟩]
     = [⟨"Q", "P", "p"⟩, ⟨"C", "Q", "q"⟩] := by decide
